@@ -388,9 +388,25 @@ async def _scenario(sc, state, ctx):
             viol.append(("admission/active-exceeds-max_clients", "len(active) > max_clients at a quiet point",
                          {"active": active, "max_clients": m}))
         if queued and active < m:
-            viol.append(("progress/slot-free-but-queued-fetch-not-started",
-                         "at a quiet point a fetch was waiting in the queue although fewer than max_clients were in progress",
-                         {"queued": queued, "active": active, "max_clients": m, "t": loop.time()}))
+            # Not yet a verdict: a queue timeout that fired in this very timer batch has already taken its
+            # fetch out of the queue but delivers the completion through add_callback (next iteration).
+            # Re-examine after two more loop iterations at the same virtual instant.
+            suspects = list(queued)
+            ctx.count("progress_rechecks")
+
+            def recheck(hops=2):
+                if hops:
+                    loop.call_soon(recheck, hops - 1)
+                    return
+                still = [r["fid"] for r in rig.fetches
+                         if r["fid"] in suspects and r["started"] is None and r["completions"] == 0]
+                act = len(client.active)
+                if still and act < m:
+                    viol.append(("progress/slot-free-but-queued-fetch-not-started",
+                                 "at a quiet point a fetch was waiting in the queue although fewer than max_clients "
+                                 "were in progress",
+                                 {"queued": still, "active": act, "max_clients": m, "t": loop.time()}))
+            loop.call_soon(recheck)
 
     rig.on_create_stream, rig.on_start, rig.on_complete = on_create_stream, on_start, on_complete
 
